@@ -28,6 +28,7 @@ type FuncResult struct {
 	gen        *Gen
 	StaticPrelude string
 	StrLits    map[string]string
+	Body       []string
 }
 
 func (w *Workspace) newGen(fn *ssa.Function, ct *Contract) *Gen {
@@ -75,8 +76,11 @@ func (w *Workspace) verifyFunction(key string, ct *Contract) (res *FuncResult) {
 		}
 	}
 	res.Obls = g.obls
-	res.Prelude = g.assemble()
 	res.StaticPrelude = g.assembleStatic()
+	res.Prelude = res.StaticPrelude
+	for _, l := range g.buf {
+		res.Body = append(res.Body, monoOptions(l))
+	}
 	res.Replay = g.replay
 	res.MapKey = key
 	res.gen = g
